@@ -42,19 +42,27 @@ Definition pobs_eqb (a b : Z * list Z) : bool := (fst a =? fst b) && bytes_eqb (
 Definition pobs_match (model impl : Z * list Z) : bool :=
   if fst model =? 4 then (fst impl =? 4) && bytes_eqb (snd impl) [] else pobs_eqb model impl.
 
-(* 1102: message table, from index, to index, option bits (0 DisallowUnknown), input bytes, err class (9 = panic), output *)
+(* 1102: message table, from index, to index, option bits (0 DisallowUnknown), input bytes, err class (9 = panic), output.
+   The expectation is the sequential spec [pspec] on the whole buffer as one complete frame with nothing beyond it; inputs it
+   classifies as outside the domain (code 5) are skipped. The byte-level mirror [pbcut] must agree with it (excluded by
+   pbcut_refines_pspec: code 98), and on success the declarative projection [pproject] must give the same tree (code 97). *)
 Definition check_1102 (fs : list field) : verdict :=
   match parse_pdefs fs with
   | Some (d, [FZ fi; FZ ti; FZ bits; FB bs; FZ err; FB out]) =>
     let dis := Z.testbit bits 0 in
     let fuel := S (length bs) in
     let impl := (err, out) in
-    match pproject d dis fuel fi ti bs with
-    | CErr 4 => VSkip                      (* not a well-formed message of the source schema *)
+    match pspec d dis fuel fi ti bs false true with
+    | CErr 5 => VSkip
     | sp =>
       let spec := match sp with COk l => (0, enc_forest l) | CErr c => (c, []) end in
       let alg := pobs (pbcut d dis false fuel fi ti bs 0) in
+      let decl_ok := match sp with
+                     | COk l => match pproject d dis fuel fi ti bs with COk l' => bytes_eqb (enc_forest l) (enc_forest l') | CErr _ => false end
+                     | CErr _ => true
+                     end in
       if negb (pobs_eqb spec alg) then VBad 98 [FZ (fst alg); FB (snd alg)]
+      else if negb decl_ok then VBad 97 []
       else if pobs_match spec impl then VOk
       else
         let q := pobs (pbcut d dis true fuel fi ti bs 0) in
